@@ -383,6 +383,650 @@ fn run_c06_case(rep: &mut Report, files: &[(String, String)], origin: &str, repl
 }
 
 // ----------------------------------------------------------------------------------
+// C07
+
+fn fresh_name_for(token_text: &str, all_text: &str, salt: usize) -> String {
+    let upper = token_text.chars().next().map(|c| c.is_ascii_uppercase()).unwrap_or(false);
+    let mut k = salt;
+    loop {
+        let cand = if upper { format!("ZzFresh{k}Q") } else { format!("zz_fresh{k}_q") };
+        if !all_text.contains(&cand) {
+            return cand;
+        }
+        k += 1;
+    }
+}
+
+struct RenameOutcome {
+    new_files: Vec<(String, String)>,
+    edits_by_file: BTreeMap<u32, Vec<(usize, usize, String)>>,
+}
+
+fn do_rename(loaded: &Loaded, an: &ide::Analysis, file: FileId, pos: usize, name: &str) -> Result<Result<RenameOutcome, String>, String> {
+    let out = panicmon::guard(|| an.rename(FilePos::new(file, TextSize::from(pos as u32)), name));
+    let we = match out {
+        Outcome::Panicked(i) => return Err(i.signature()),
+        Outcome::Ok(Err(_)) => return Err("cancelled".into()),
+        Outcome::Ok(Ok(Err(e))) => return Ok(Err(e)),
+        Outcome::Ok(Ok(Ok(we))) => we,
+    };
+    let mut edits_by_file: BTreeMap<u32, Vec<(usize, usize, String)>> = BTreeMap::new();
+    for (f, es) in &we.content_edits {
+        for e in es {
+            edits_by_file.entry(f.0).or_default().push((e.delete.start().into(), e.delete.end().into(), e.insert.to_string()));
+        }
+    }
+    for v in edits_by_file.values_mut() {
+        v.sort();
+    }
+    let mut new_files = Vec::new();
+    for (fid, path, text) in &loaded.files {
+        let t = match edits_by_file.get(&fid.0) {
+            Some(es) => match sema::apply_edits(text, es) {
+                Some(t) => t,
+                None => return Ok(Err("__overlap__".into())),
+            },
+            None => text.clone(),
+        };
+        new_files.push((path.clone(), t));
+    }
+    Ok(Ok(RenameOutcome { new_files, edits_by_file }))
+}
+
+fn map_target(edits: &BTreeMap<u32, Vec<(usize, usize, String)>>, t: &Target) -> Target {
+    let empty = Vec::new();
+    let es = edits.get(&t.file).unwrap_or(&empty);
+    let m = |o: usize| sema::map_offset(es, o);
+    // end offsets: map end as start-of-token + new len when the end coincides with an edited token's end
+    let map_end = |o: usize| -> usize {
+        for (a, b, ins) in es {
+            if o == *b {
+                return sema::map_offset(es, *a) + ins.len();
+            }
+        }
+        m(o)
+    };
+    Target { file: t.file, focus: (m(t.focus.0), map_end(t.focus.1)), full: (m(t.full.0), map_end(t.full.1)) }
+}
+
+fn run_c07_case(rep: &mut Report, ws: &Workspace, case_seed: u64, r: &mut Rng, per_ws: usize) {
+    let files = ws.files();
+    let loaded = ws::load_single(&files);
+    let an = loaded.host.snapshot();
+    let tables = sema::tables_of(&loaded);
+    let census0 = sema::census(&loaded, &an, &tables);
+    let all_text: String = files.iter().map(|f| f.1.as_str()).collect::<Vec<_>>().join("\n");
+    let errors0: BTreeMap<u32, Vec<(usize, usize, String)>> = loaded
+        .files
+        .iter()
+        .map(|f| (f.0 .0, syntax::parse_module(&f.2).errors().iter().map(|e| (usize::from(e.range.start()), usize::from(e.range.end()), format!("{:?}", e.kind))).collect()))
+        .collect();
+    // candidate occurrences
+    let mut cands: Vec<(usize, usize)> = Vec::new(); // (module, occ index)
+    for (mi, p) in ws.printed.iter().enumerate() {
+        for (oi, o) in p.occs.iter().enumerate() {
+            match &o.ident.bind {
+                Bind::Decl(_) | Bind::Use { target: Some(_), .. } => cands.push((mi, oi)),
+                _ => {}
+            }
+        }
+    }
+    r.shuffle(&mut cands);
+    cands.truncate(per_ws);
+    for (k, (mi, oi)) in cands.into_iter().enumerate() {
+        let occ = &ws.printed[mi].occs[oi];
+        let file = loaded.file_by_path(&ws.path_of(mi)).unwrap();
+        let d = match &occ.ident.bind {
+            Bind::Decl(d) => *d,
+            Bind::Use { target: Some(d), .. } => *d,
+            _ => continue,
+        };
+        let canon = ws.canonical(d);
+        let kind = kind_name(ws.decls[canon].kind);
+        let site = occ.ident.site;
+        let old = occ.ident.text.clone();
+        let fresh = fresh_name_for(&old, &all_text, k);
+        rep.evaluations += 1;
+        let mut rp = json!({"kind":"workspace","files":files_json(&files),"case_seed":case_seed.to_string(),
+            "rename":{"module":mi,"range":[occ.range.0,occ.range.1],"text":old,"site":site,"new_name":fresh}});
+        let outcome = match do_rename(&loaded, &an, file, occ.range.0, &fresh) {
+            Err(sig) => {
+                rep.count("rename_panicked(C10's business)", 1);
+                rep.see("panics_seen", sig);
+                continue;
+            }
+            Ok(Err(e)) if e == "__overlap__" => {
+                rep.violate(format!("rename-edits-overlap:{kind}"), format!("edits for `{old}` overlap or are out of bounds"), rp);
+                continue;
+            }
+            Ok(Err(e)) => {
+                rep.see("refused_cells", format!("{site}:{kind}:{}", e.split(' ').take(3).collect::<Vec<_>>().join("_")));
+                continue;
+            }
+            Ok(Ok(o)) => o,
+        };
+        rep.see("accepted_cells", format!("{site}:{kind}"));
+        let n_edits: usize = outcome.edits_by_file.values().map(|v| v.len()).sum();
+        if n_edits >= 2 {
+            rep.nontrivial(fnv(format!("{case_seed}:{mi}:{oi}").as_bytes()));
+        }
+        // (1) whole identifier tokens spelled with the old name, disjoint, no duplicates
+        let mut bad = false;
+        for (f, es) in &outcome.edits_by_file {
+            let text = loaded.text(FileId(*f));
+            let tt = &tables[f];
+            for w in es.windows(2) {
+                if w[0] == w[1] {
+                    rep.violate(format!("rename-edit-duplicated:{kind}"), format!("{:?} listed twice", w[0]), rp.clone());
+                    bad = true;
+                }
+            }
+            for (a, b, ins) in es {
+                let is_ident_tok = tt.tokens.iter().any(|(x, y, k)| x == a && y == b && (*k == syntax::SyntaxKind::IDENT || *k == syntax::SyntaxKind::U_IDENT));
+                if !is_ident_tok {
+                    rep.violate(format!("rename-edit-not-an-identifier-token:{kind}"), format!("edit {a}..{b} in file {f} = {:?}", text.get(*a..*b)), rp.clone());
+                    bad = true;
+                } else if &text[*a..*b] != old {
+                    rep.violate(format!("rename-edit-on-other-spelling:{kind}"), format!("edit {a}..{b} replaces `{}` while renaming `{old}`", &text[*a..*b]), rp.clone());
+                    bad = true;
+                }
+                if ins != &fresh {
+                    rep.violate(format!("rename-inserts-other-text:{kind}"), format!("inserts {ins:?} instead of {fresh:?}"), rp.clone());
+                    bad = true;
+                }
+            }
+        }
+        if bad {
+            continue;
+        }
+        // (2) edit set == references
+        let refs = panicmon::guard(|| an.references(FilePos::new(file, TextSize::from(occ.range.0 as u32))));
+        if let Outcome::Ok(Ok(Some(refs))) = refs {
+            let rset: BTreeSet<(u32, usize, usize)> = refs.iter().map(|fr| (fr.file_id.0, usize::from(fr.range.start()), usize::from(fr.range.end()))).collect();
+            let eset: BTreeSet<(u32, usize, usize)> = outcome.edits_by_file.iter().flat_map(|(f, es)| es.iter().map(move |e| (*f, e.0, e.1))).collect();
+            if rset != eset {
+                rep.violate(
+                    format!("rename-edits-differ-from-references:{kind}"),
+                    format!("edits {eset:?} vs references {rset:?}"),
+                    rp.clone(),
+                );
+            }
+        }
+        // (6) ground truth: every core occurrence of the symbol is edited, no edit hits another symbol
+        let eset: BTreeSet<(u32, usize, usize)> = outcome.edits_by_file.iter().flat_map(|(f, es)| es.iter().map(move |e| (*f, e.0, e.1))).collect();
+        for (mj, p) in ws.printed.iter().enumerate() {
+            let fj = loaded.file_by_path(&ws.path_of(mj)).unwrap().0;
+            for o in &p.occs {
+                let (od, core) = match &o.ident.bind {
+                    Bind::Decl(x) => (Some(*x), true),
+                    Bind::Use { target: Some(x), core } => (Some(*x), *core),
+                    _ => (None, false),
+                };
+                let key = (fj, o.range.0, o.range.1);
+                match od {
+                    Some(x) if ws.canonical(x) == canon && o.ident.text == old => {
+                        if core && !eset.contains(&key) {
+                            rep.violate(
+                                format!("rename-misses-occurrence:{}:{kind}", o.ident.site),
+                                format!("renaming `{old}` ({kind}) from {site} leaves the occurrence at module {mj} {:?} ({}) untouched", o.range, o.ident.site),
+                                rp.clone(),
+                            );
+                        }
+                    }
+                    Some(x) if ws.canonical(x) != canon => {
+                        if eset.contains(&key) {
+                            rep.violate(
+                                format!("rename-captures-other-symbol:{}:{kind}", o.ident.site),
+                                format!("renaming `{old}` ({kind}) also edits module {mj} {:?}, an occurrence of {:?} `{}`", o.range, ws.decls[ws.canonical(x)].kind, ws.decls[ws.canonical(x)].name),
+                                rp.clone(),
+                            );
+                        }
+                    }
+                    _ => {}
+                }
+            }
+        }
+        // (3) meaning preserved: fresh analysis of the edited workspace
+        let loaded1 = ws::load_single(&outcome.new_files);
+        let an1 = loaded1.host.snapshot();
+        for t0 in &census0 {
+            if matches!(t0.goto, Goto::Panicked(_)) {
+                continue;
+            }
+            let empty = Vec::new();
+            let es = outcome.edits_by_file.get(&t0.file.0).unwrap_or(&empty);
+            let p1 = sema::map_offset(es, t0.a);
+            let f1 = loaded1.file_by_path(loaded.path(t0.file)).unwrap();
+            let g1 = sema::goto_at(&an1, f1, p1);
+            let want = match &t0.goto {
+                Goto::One(t) => Goto::One(map_target(&outcome.edits_by_file, t)),
+                Goto::Many(ts) => Goto::Many(ts.iter().map(|t| map_target(&outcome.edits_by_file, t)).collect()),
+                other => other.clone(),
+            };
+            rep.count("identifiers_rechecked_after_rename", 1);
+            if g1 != want {
+                rp["broken_identifier"] = json!({"file": loaded.path(t0.file), "range": [t0.a, t0.b], "text": t0.text});
+                rep.violate(
+                    format!("rename-changes-meaning:{kind}"),
+                    format!("after renaming `{old}` -> `{fresh}`, identifier `{}` at file {} {}..{} resolves to {:?}, before (mapped) {:?}", t0.text, t0.file.0, t0.a, t0.b, g1, want),
+                    rp.clone(),
+                );
+                break;
+            }
+        }
+        // (4) syntax errors unchanged under the position map
+        for (fid, _p, text1) in &loaded1.files {
+            let e1: Vec<(usize, usize, String)> = syntax::parse_module(text1).errors().iter().map(|e| (usize::from(e.range.start()), usize::from(e.range.end()), format!("{:?}", e.kind))).collect();
+            let empty = Vec::new();
+            let es = outcome.edits_by_file.get(&fid.0).unwrap_or(&empty);
+            let e0: Vec<(usize, String)> = errors0.get(&fid.0).cloned().unwrap_or_default().iter().map(|(a, _b, k)| (sema::map_offset(es, *a), k.clone())).collect();
+            let e1s: Vec<(usize, String)> = e1.iter().map(|(a, _b, k)| (*a, k.clone())).collect();
+            if e0 != e1s {
+                rep.violate(format!("rename-changes-syntax-errors:{kind}"), format!("before (mapped) {e0:?} after {e1s:?}"), rp.clone());
+            }
+        }
+        // (5) rename back restores the text
+        let empty = Vec::new();
+        let es = outcome.edits_by_file.get(&file.0).unwrap_or(&empty);
+        let back_pos = sema::map_offset(es, occ.range.0);
+        let f1 = loaded1.file_by_path(loaded.path(file)).unwrap();
+        match do_rename(&loaded1, &an1, f1, back_pos, &old) {
+            Ok(Ok(o2)) => {
+                if o2.new_files != files_sorted_like(&loaded1, &files) {
+                    rep.violate(format!("rename-back-does-not-restore:{kind}"), format!("renaming `{fresh}` back to `{old}` does not give the original text"), rp.clone());
+                }
+            }
+            Ok(Err(e)) => {
+                rep.violate(format!("rename-back-refused:{kind}"), format!("renaming `{fresh}` back to `{old}` at {back_pos} is refused: {e}"), rp.clone());
+            }
+            Err(_) => {}
+        }
+    }
+}
+
+fn files_sorted_like(loaded: &Loaded, files: &[(String, String)]) -> Vec<(String, String)> {
+    loaded.files.iter().map(|(_, p, _)| (p.clone(), files.iter().find(|f| &f.0 == p).map(|f| f.1.clone()).unwrap_or_default())).collect()
+}
+
+// ----------------------------------------------------------------------------------
+// C08
+
+fn keywords() -> Vec<&'static str> {
+    vec!["as", "assert", "case", "const", "external", "fn", "if", "import", "let", "opaque", "panic", "pub", "todo", "type", "use"]
+}
+
+fn name_classes() -> Vec<(&'static str, String)> {
+    let mut v: Vec<(&'static str, String)> = Vec::new();
+    for k in keywords() {
+        v.push(("keyword", k.to_string()));
+    }
+    for n in ["zz_new", "a1", "z"] {
+        v.push(("lower", n.to_string()));
+    }
+    v.push(("lower", format!("z{}", "a".repeat(299))));
+    for n in ["ZzNew", "A1", "Z"] {
+        v.push(("upper", n.to_string()));
+    }
+    for (c, n) in [
+        ("discard", "_x"), ("discard", "_"), ("mixed-case", "fooBar"), ("mixed-case", "Foo_bar"), ("number", "12"), ("number", "1.5"), ("number-ident", "1x"),
+        ("string", "\"s\""), ("operator", "+"), ("operator", "->"), ("operator", ".."), ("punctuation", "("), ("punctuation", ","), ("empty", ""),
+        ("whitespace", " "), ("whitespace", "\n"), ("spaced", "a b"), ("spaced", " a"), ("spaced", "a "), ("spaced", "A b"), ("dotted", "a.b"), ("dotted", "A.B"),
+        ("slashed", "a/b"), ("multiline", "a\nb"), ("non-ascii", "ß"), ("non-ascii", "Ärger"), ("non-ascii", "💣"), ("non-ascii", "naïve"), ("comment", "a//c"), ("comment", "//c"),
+    ] {
+        v.push((c, n.to_string()));
+    }
+    v
+}
+
+fn lex_class(name: &str) -> &'static str {
+    // independent classifier: exactly one lower/upper identifier, not a keyword
+    let b = name.as_bytes();
+    if b.is_empty() {
+        return "invalid";
+    }
+    if keywords().contains(&name) {
+        return "invalid";
+    }
+    if b[0].is_ascii_lowercase() && b.iter().all(|c| c.is_ascii_lowercase() || c.is_ascii_digit() || *c == b'_') {
+        return "lower";
+    }
+    if b[0].is_ascii_uppercase() && b.iter().all(|c| c.is_ascii_alphanumeric()) {
+        return "upper";
+    }
+    "invalid"
+}
+
+fn required_class(k: SymKind) -> Option<&'static str> {
+    Some(match k {
+        SymKind::Function | SymKind::Constant | SymKind::Field | SymKind::Param | SymKind::Let | SymKind::ClauseVar | SymKind::LambdaParam | SymKind::UseVar | SymKind::AsVar | SymKind::SpreadVar | SymKind::PrefixVar => "lower",
+        SymKind::Adt | SymKind::Alias | SymKind::Variant => "upper",
+        _ => return None,
+    })
+}
+
+fn multi_package(ws: &Workspace) -> (Vec<PkgSpec>, Vec<usize>) {
+    // module index -> package index: m0 registry dependency (non-local), m1 path dependency
+    // (local), the rest the root package.
+    let roots = ["/ws/root/build/packages/dep", "/ws/pathdep", "/ws/root"];
+    let names = ["dep", "pathdep", "root"];
+    let mut pkgs: Vec<PkgSpec> = (0..3)
+        .map(|i| PkgSpec { root: roots[i].into(), name: names[i].into(), is_local: i != 0, deps: vec![], files: vec![(format!("{}/gleam.toml", roots[i]), format!("name = \"{}\"\n", names[i]))] })
+        .collect();
+    pkgs[2].deps = vec![0, 1];
+    pkgs[1].deps = vec![0];
+    let mut pkg_of_module = Vec::new();
+    for (mi, m) in ws.modules.iter().enumerate() {
+        let pi = match mi {
+            0 if ws.modules.len() > 1 => 0,
+            1 if ws.modules.len() > 2 => 1,
+            _ => 2,
+        };
+        pkg_of_module.push(pi);
+        pkgs[pi].files.push((format!("{}/src/{}.gleam", roots[pi], m.name), ws.printed[mi].text.clone()));
+    }
+    (pkgs, pkg_of_module)
+}
+
+fn run_c08_case(rep: &mut Report, ws: &Workspace, case_seed: u64, r: &mut Rng, per_ws: usize) {
+    let (pkgs, pkg_of_module) = multi_package(ws);
+    let loaded = ws::load_packages(&pkgs);
+    let an = loaded.host.snapshot();
+    let all_files: Vec<(String, String)> = pkgs.iter().flat_map(|p| p.files.iter().cloned()).collect();
+    let module_path = |mi: usize| -> String { format!("{}/src/{}.gleam", pkgs[pkg_of_module[mi]].root, ws.modules[mi].name) };
+    let classes = name_classes();
+    let mut cands: Vec<(usize, usize)> = Vec::new();
+    for (mi, p) in ws.printed.iter().enumerate() {
+        for (oi, o) in p.occs.iter().enumerate() {
+            match &o.ident.bind {
+                Bind::Decl(_) | Bind::Use { .. } | Bind::Module { .. } => cands.push((mi, oi)),
+                Bind::Plain => {}
+            }
+        }
+    }
+    r.shuffle(&mut cands);
+    cands.truncate(per_ws);
+    let replay_base = json!({"kind":"packages","packages": pkgs.iter().map(|p| json!({"root":p.root,"name":p.name,"is_local":p.is_local,"deps":p.deps,"files":files_json(&p.files)})).collect::<Vec<_>>(),"case_seed":case_seed.to_string()});
+    let _ = all_files;
+    for (mi, oi) in cands {
+        let occ = &ws.printed[mi].occs[oi];
+        let file = loaded.file_by_path(&module_path(mi)).unwrap();
+        let fpos = FilePos::new(file, TextSize::from(occ.range.0 as u32));
+        // classification from the sidecar
+        let (symbol, what): (Option<usize>, &'static str) = match &occ.ident.bind {
+            Bind::Decl(d) => (Some(ws.canonical(*d)), "symbol"),
+            Bind::Use { target: Some(d), .. } => (Some(ws.canonical(*d)), "symbol"),
+            Bind::Use { target: None, core: true } if occ.ident.site == "builtin-ctor" => (None, "builtin"),
+            Bind::Module { .. } => (None, "module"),
+            _ => continue,
+        };
+        let kind = symbol.map(|d| ws.decls[d].kind);
+        let alias_spelling = symbol.map(|d| ws.decls[d].name != occ.ident.text).unwrap_or(false);
+        let local = symbol.map(|d| pkgs[pkg_of_module[ws.decls[d].module]].is_local).unwrap_or(true);
+        let locality = if local { if symbol.map(|d| pkg_of_module[ws.decls[d].module] == 1).unwrap_or(false) { "local-path-dep" } else { "local-root" } } else { "non-local" };
+        let kname = kind.map(kind_name).unwrap_or_else(|| what.to_string());
+        let mut rp = replay_base.clone();
+        rp["occurrence"] = json!({"path": module_path(mi), "range": [occ.range.0, occ.range.1], "text": occ.ident.text, "site": occ.ident.site});
+        let mut valid_ok: Option<bool> = None;
+        for (cname, name) in &classes {
+            rep.evaluations += 1;
+            let out = panicmon::guard(|| an.rename(fpos, name));
+            let res = match out {
+                Outcome::Ok(Ok(r)) => r,
+                Outcome::Ok(Err(_)) => continue,
+                Outcome::Panicked(i) => {
+                    rep.count("rename_panicked(C10's business)", 1);
+                    rep.see("panics_seen", i.signature());
+                    continue;
+                }
+            };
+            let class_ok = match kind.and_then(required_class) {
+                Some(req) => lex_class(name) == req,
+                None => false,
+            };
+            let must_refuse = what != "symbol" || alias_spelling || !local || !class_ok;
+            rep.see("cells", format!("{kname}:{cname}:{locality}{}", if alias_spelling { ":alias-spelling" } else { "" }));
+            match &res {
+                Ok(we) => {
+                    let n: usize = we.content_edits.values().map(|v| v.len()).sum();
+                    if must_refuse {
+                        let why = if what != "symbol" { what } else if alias_spelling { "alias-spelling" } else if !local { "non-local-definition" } else { "invalid-name" };
+                        let mut rp2 = rp.clone();
+                        rp2["new_name"] = json!(name);
+                        rep.violate(
+                            format!("rename-accepts:{kname}:{why}:name-class={cname}"),
+                            format!("rename of `{}` ({kname}, {locality}) to {name:?} is accepted with {n} edits", occ.ident.text),
+                            rp2,
+                        );
+                    }
+                    // edits only in local packages
+                    for f in we.content_edits.keys() {
+                        let pi = loaded.pkg_of_file.get(&f.0).copied().unwrap_or(usize::MAX);
+                        if pi == usize::MAX || !pkgs[pi].is_local {
+                            let mut rp2 = rp.clone();
+                            rp2["new_name"] = json!(name);
+                            rep.violate(
+                                format!("rename-edits-dependency-file:{kname}"),
+                                format!("rename of `{}` to {name:?} edits {} which belongs to a non-local package", occ.ident.text, loaded.path(*f)),
+                                rp2,
+                            );
+                        }
+                    }
+                    if class_ok {
+                        valid_ok = Some(true);
+                    }
+                }
+                Err(_) => {
+                    if class_ok && valid_ok.is_none() {
+                        valid_ok = Some(false);
+                    }
+                }
+            }
+        }
+        // prepare_rename <=> rename(valid name)
+        if let Some(vok) = valid_ok {
+            let pr = panicmon::guard(|| an.prepare_rename(fpos));
+            if let Outcome::Ok(Ok(pr)) = pr {
+                rep.evaluations += 1;
+                if pr.is_ok() != vok {
+                    rep.violate(
+                        format!("prepare-rename-disagrees:{kname}:{locality}{}", if alias_spelling { ":alias-spelling" } else { "" }),
+                        format!("prepare_rename at `{}` says {:?} but rename with a valid name {}", occ.ident.text, pr.as_ref().map(|x| x.1.to_string()), if vok { "succeeds" } else { "fails" }),
+                        rp.clone(),
+                    );
+                }
+                rep.nontrivial(fnv(format!("{case_seed}:{mi}:{oi}").as_bytes()));
+            }
+        }
+    }
+}
+
+// ----------------------------------------------------------------------------------
+// C18
+
+const BUILTIN_VALUES: &[&str] = &["Ok", "Error", "Nil", "True", "False"];
+
+fn run_c18_case(rep: &mut Report, ws: &Workspace, case_seed: u64) {
+    let files = ws.files();
+    let loaded = ws::load_single(&files);
+    let an = loaded.host.snapshot();
+    let replay = json!({"kind":"workspace","files":files_json(&files),"case_seed":case_seed.to_string()});
+    for h in &ws.holes {
+        if h.range == (0, 0) {
+            continue;
+        }
+        let file = loaded.file_by_path(&ws.path_of(h.module)).unwrap();
+        rep.evaluations += 1;
+        let mut rp = replay.clone();
+        rp["hole"] = json!({"module": h.module, "range": [h.range.0, h.range.1], "name": h.name});
+        let out = panicmon::guard(|| an.completions(FilePos::new(file, TextSize::from(h.range.1 as u32)), None));
+        let items = match out {
+            Outcome::Ok(Ok(Some(items))) => items,
+            Outcome::Ok(Ok(None)) => {
+                rep.violate("completion-none-at-expression-hole", format!("no completion list at hole `{}`", h.name), rp);
+                continue;
+            }
+            Outcome::Ok(Err(_)) => continue,
+            Outcome::Panicked(i) => {
+                rep.count("completion_panicked(C10's business)", 1);
+                rep.see("panics_seen", i.signature());
+                continue;
+            }
+        };
+        let mut got: BTreeMap<String, Vec<&ide::CompletionItem>> = BTreeMap::new();
+        for it in &items {
+            if it.kind == ide::CompletionItemKind::Keyword {
+                continue;
+            }
+            if BUILTIN_VALUES.contains(&it.label.as_str()) {
+                continue;
+            }
+            got.entry(it.label.to_string()).or_default().push(it);
+        }
+        // expected: visible value names + module accessors
+        let mut want: BTreeSet<String> = h.visible.keys().cloned().collect();
+        for a in h.accessors.keys() {
+            want.insert(a.clone());
+        }
+        let gotset: BTreeSet<String> = got.keys().cloned().collect();
+        if h.visible.len() >= 3 {
+            rep.nontrivial(fnv(format!("{case_seed}:{}", h.name).as_bytes()));
+        }
+        for missing in want.difference(&gotset) {
+            let k = h.visible.get(missing).map(|d| kind_name(ws.decls[*d].kind)).unwrap_or_else(|| "ModuleAccessor".into());
+            let imported = h.visible.get(missing).map(|d| ws.decls[*d].module != h.module).unwrap_or(false);
+            let aliased = h.visible.get(missing).map(|d| ws.decls[*d].name != *missing).unwrap_or(false);
+            rep.violate(
+                format!("completion-missing:{k}{}{}", if imported { ":imported" } else { "" }, if aliased { ":aliased" } else { "" }),
+                format!("`{missing}` is in scope at hole `{}` (module {}) but is not offered; offered: {:?}", h.name, h.module, gotset),
+                rp.clone(),
+            );
+        }
+        for extra in gotset.difference(&want) {
+            let kinds: Vec<String> = got[extra].iter().map(|i| format!("{:?}", i.kind)).collect();
+            rep.violate(
+                format!("completion-extra:{}", kinds.join("+")),
+                format!("`{extra}` is offered at hole `{}` (module {}) but is not visible there; visible: {:?}", h.name, h.module, want),
+                rp.clone(),
+            );
+        }
+        for (label, its) in &got {
+            if its.len() > 1 && h.visible.contains_key(label) {
+                rep.violate("completion-duplicate-label", format!("`{label}` is offered {} times", its.len()), rp.clone());
+            }
+            for it in its {
+                let sr = (usize::from(it.source_range.start()), usize::from(it.source_range.end()));
+                if sr != h.range {
+                    rep.violate(
+                        format!("completion-wrong-replace-range:{:?}", it.kind),
+                        format!("item `{label}` replaces {sr:?} but the identifier being typed is {:?}", h.range),
+                        rp.clone(),
+                    );
+                }
+            }
+        }
+        // accept-and-resolve for value names
+        for (label, d) in &h.visible {
+            let Some(its) = got.get(label) else { continue };
+            let it = its[0];
+            let text = loaded.text(file);
+            let sr = (usize::from(it.source_range.start()), usize::from(it.source_range.end()));
+            if sr.1 > text.len() || sr.0 > sr.1 {
+                continue;
+            }
+            let mut t2 = String::new();
+            t2.push_str(&text[..sr.0]);
+            t2.push_str(&it.replace);
+            t2.push_str(&text[sr.1..]);
+            let mut files2 = files.clone();
+            for f in files2.iter_mut() {
+                if f.0 == ws.path_of(h.module) {
+                    f.1 = t2.clone();
+                }
+            }
+            let l2 = ws::load_single(&files2);
+            let an2 = l2.host.snapshot();
+            let f2 = l2.file_by_path(&ws.path_of(h.module)).unwrap();
+            let g = sema::goto_at(&an2, f2, sr.0);
+            rep.count("accept_and_resolve_checks", 1);
+            let canon = ws.canonical(*d);
+            let di = &ws.decls[canon];
+            // declarations after the hole in the same file shift by the length difference
+            let delta = it.replace.len() as isize - (sr.1 - sr.0) as isize;
+            let shift = |o: usize| -> usize { if di.module == h.module && o >= sr.1 { (o as isize + delta) as usize } else { o } };
+            let want_file = l2.file_by_path(&ws.path_of(di.module)).unwrap().0;
+            let want_focus = (shift(di.focus.0), shift(di.focus.1));
+            match g {
+                Goto::One(t) if t.file == want_file && t.focus == want_focus => {}
+                Goto::Panicked(_) => {}
+                other => {
+                    rep.violate(
+                        format!("completion-accepted-name-does-not-resolve:{}", kind_name(di.kind)),
+                        format!("accepting `{label}` ({:?}) at hole `{}` inserts {:?}; goto on it gives {:?}, expected file {want_file} {want_focus:?}", it.kind, h.name, it.replace, other),
+                        rp.clone(),
+                    );
+                }
+            }
+        }
+    }
+    // dot completions at qualified uses and field accesses
+    for (mi, p) in ws.printed.iter().enumerate() {
+        let file = loaded.file_by_path(&ws.path_of(mi)).unwrap();
+        for occ in &p.occs {
+            let site = occ.ident.site;
+            if site != "qualified-fn" && site != "qualified-ctor" && site != "qualified-const" {
+                continue;
+            }
+            // the module is the qualifier right before: find it in occs (ends at range.0 - 1)
+            let Some(q) = p.occs.iter().find(|o| o.range.1 + 1 == occ.range.0 && matches!(o.ident.bind, Bind::Module { .. })) else { continue };
+            let Bind::Module { module, .. } = q.ident.bind else { continue };
+            rep.evaluations += 1;
+            let out = panicmon::guard(|| an.completions(FilePos::new(file, TextSize::from(occ.range.0 as u32)), Some('.')));
+            let items = match out {
+                Outcome::Ok(Ok(Some(items))) => items,
+                _ => continue,
+            };
+            let got: BTreeSet<String> = items.iter().map(|i| i.label.to_string()).collect();
+            // expected: public functions and constructors of public, non-opaque types of that module
+            let mut want: BTreeSet<String> = BTreeSet::new();
+            let mut private: BTreeSet<String> = BTreeSet::new();
+            for (di, d) in ws.decls.iter().enumerate() {
+                if d.module != module {
+                    continue;
+                }
+                let _ = di;
+                match d.kind {
+                    SymKind::Function => {
+                        if d.public { want.insert(d.name.clone()); } else { private.insert(d.name.clone()); }
+                    }
+                    SymKind::Variant => {
+                        if d.public { want.insert(d.name.clone()); } else { private.insert(d.name.clone()); }
+                    }
+                    _ => {}
+                }
+            }
+            let mut rp = replay.clone();
+            rp["dot"] = json!({"module": mi, "at": occ.range.0, "qualifier": q.ident.text});
+            for leak in got.intersection(&private) {
+                if want.contains(leak) {
+                    continue;
+                }
+                rep.violate("completion-dot-offers-private-item", format!("`{}.` offers `{leak}`, which is private (or a constructor of a private/opaque type) in that module", q.ident.text), rp.clone());
+            }
+            for m in want.difference(&got) {
+                rep.violate("completion-dot-missing-public-item", format!("`{}.` does not offer public `{m}`; offered {got:?}", q.ident.text), rp.clone());
+            }
+            for e in got.difference(&want) {
+                if private.contains(e) {
+                    continue;
+                }
+                rep.violate("completion-dot-extra", format!("`{}.` offers `{e}` which is neither a public function nor a constructor of that module", q.ident.text), rp.clone());
+            }
+            rep.count("dot_completion_checks", 1);
+        }
+    }
+}
+
+// ----------------------------------------------------------------------------------
 
 fn run(args: Args) -> Report {
     let mut rep = Report::new(&args.prop, args.shard);
@@ -436,7 +1080,52 @@ fn run(args: Args) -> Report {
                 n += 1;
             }
         }
-        p => panic!("m_sema does not serve {p} yet"),
+        "C07" => {
+            let per_ws = if args.thorough() { 60 } else { 24 };
+            while t0.elapsed().as_secs_f64() < args.budget_s {
+                let case_seed = r.next_u64();
+                let mut cr = Rng::new(case_seed);
+                let cfg = gen_cfg(&mut cr, false);
+                let ws = gen::generate(&mut cr, &cfg);
+                journal.begin("c07", files_json(&ws.files()).to_string().as_bytes());
+                run_c07_case(&mut rep, &ws, case_seed, &mut cr, per_ws);
+                if rep.samples.len() < 3 && n % 17 == 0 {
+                    rep.sample(json!({"case_seed": case_seed.to_string(), "module0": truncate_str(&ws.printed[0].text, 300)}));
+                }
+                n += 1;
+            }
+        }
+        "C08" => {
+            let per_ws = if args.thorough() { 80 } else { 30 };
+            while t0.elapsed().as_secs_f64() < args.budget_s {
+                let case_seed = r.next_u64();
+                let mut cr = Rng::new(case_seed);
+                let mut cfg = gen_cfg(&mut cr, false);
+                cfg.modules = cr.range(2, 4);
+                let ws = gen::generate(&mut cr, &cfg);
+                journal.begin("c08", files_json(&ws.files()).to_string().as_bytes());
+                run_c08_case(&mut rep, &ws, case_seed, &mut cr, per_ws);
+                if rep.samples.len() < 3 && n % 17 == 0 {
+                    rep.sample(json!({"case_seed": case_seed.to_string(), "names_tried": name_classes().len(), "module0": truncate_str(&ws.printed[0].text, 200)}));
+                }
+                n += 1;
+            }
+        }
+        "C18" => {
+            while t0.elapsed().as_secs_f64() < args.budget_s {
+                let case_seed = r.next_u64();
+                let mut cr = Rng::new(case_seed);
+                let cfg = gen_cfg(&mut cr, true);
+                let ws = gen::generate(&mut cr, &cfg);
+                journal.begin("c18", files_json(&ws.files()).to_string().as_bytes());
+                run_c18_case(&mut rep, &ws, case_seed);
+                if rep.samples.len() < 3 && n % 17 == 0 && !ws.holes.is_empty() {
+                    rep.sample(json!({"case_seed": case_seed.to_string(), "hole": ws.holes[0].name, "visible": ws.holes[0].visible.keys().collect::<Vec<_>>(), "module": truncate_str(&ws.printed[ws.holes[0].module].text, 300)}));
+                }
+                n += 1;
+            }
+        }
+        p => panic!("m_sema does not serve {p}"),
     }
     journal.idle();
     rep.count("workspaces", n);
